@@ -28,6 +28,8 @@ type Item struct {
 	Callee string `json:"callee,omitempty"` // gen | once | oncefixed | flush | raw | join | fn | fnkids
 	A      int    `json:"a,omitempty"`      // component / handle index
 	B      int    `json:"b,omitempty"`      // second component for join
+	// Arity of a join / fnseq call: 0 = the two components A, B; 1 = A alone; 3 = A, B, A; -1 = none.
+	Arity int `json:"arity,omitempty"`
 	Block  []Item `json:"block,omitempty"`
 	HasBlk bool   `json:"has_block,omitempty"`
 }
@@ -41,6 +43,19 @@ var rec = ev.New("C13", "c13.calltree",
 	"generated call trees: a root template and up to 5 generated components whose bodies and child blocks are sequences of markers, children slots (0..2 per body), and calls - with or without a block, nested up to depth 4 - to generated components, once handles (block form and fixed-component form), templ.Flush, templ.Raw, templ.Join, a function component that ignores children, a hand-written one that renders templ.GetChildren and a hand-written layer that renders two generated components with the context it received; "+
 		"every tree is generated with /repo's generator, compiled and rendered; the marker sequence must equal the one computed by a reference interpreter of the statement (a callee gets exactly its call site's block, blocks are evaluated in the caller's scope, nothing leaks to siblings or descendants, nothing is rendered twice). "+
 		"Non-trivial = the tree has a no-block call inside some block, or a sibling after a call whose callee does not consume its block; distinct by tree")
+
+// joined lists the components a join / fnseq call is given.
+func (it Item) joined() []int {
+	switch it.Arity {
+	case -1:
+		return nil
+	case 1:
+		return []int{it.A}
+	case 3:
+		return []int{it.A, it.B, it.A}
+	}
+	return []int{it.A, it.B}
+}
 
 // ---------- reference interpreter ----------
 
@@ -105,15 +120,21 @@ func (in *interp) eval(items []Item, sc *scope) {
 				in.sb.WriteString("<b>" + it.Text + "</b>")
 			case "join":
 				// templ.Join has no children slot: a block given to it is given to nobody, and
-				// the joined components were called without a block.
-				in.eval(in.t.Comps[it.A], &scope{})
-				in.eval(in.t.Comps[it.B], &scope{})
+				// the joined components were called without a block - however many there are.
+				for _, c := range it.joined() {
+					in.eval(in.t.Comps[c], &scope{})
+				}
 			case "fnseq":
-				// a hand-written layer that renders A and then B with the context it was rendered
-				// with: that is Go's way of calling A with the layer's own block (WithChildren +
-				// Render); B follows a call and was given nothing.
-				in.eval(in.t.Comps[it.A], &scope{children: blk})
-				in.eval(in.t.Comps[it.B], &scope{})
+				// a hand-written layer that renders its components in turn with the context it was
+				// rendered with: that is Go's way of calling the first one with the layer's own
+				// block (WithChildren + Render); the others follow a call and were given nothing.
+				for i, c := range it.joined() {
+					if i == 0 {
+						in.eval(in.t.Comps[c], &scope{children: blk})
+					} else {
+						in.eval(in.t.Comps[c], &scope{})
+					}
+				}
 			}
 		}
 	}
@@ -181,10 +202,16 @@ func (t Tree) source(prefix string) string {
 					expr = fmt.Sprintf("fnText(%q)", it.Text)
 				case "fnkids":
 					expr = "fnKids()"
-				case "join":
-					expr = fmt.Sprintf("templ.Join(%sC%d(), %sC%d())", prefix, it.A, prefix, it.B)
-				case "fnseq":
-					expr = fmt.Sprintf("fnSeq(%sC%d(), %sC%d())", prefix, it.A, prefix, it.B)
+				case "join", "fnseq":
+					var args []string
+					for _, c := range it.joined() {
+						args = append(args, fmt.Sprintf("%sC%d()", prefix, c))
+					}
+					fn := "templ.Join"
+					if it.Callee == "fnseq" {
+						fn = "fnSeq"
+					}
+					expr = fn + "(" + strings.Join(args, ", ") + ")"
 				}
 				if it.HasBlk {
 					fmt.Fprintf(&sb, "%s@%s {\n", indent, expr)
@@ -239,12 +266,14 @@ func fnKids() templ.Component {
 
 // fnSeq is a hand-written layer that hands the context it was rendered with to two components in
 // turn (what templ.Join does, without knowing about children).
-func fnSeq(a, b templ.Component) templ.Component {
+func fnSeq(cs ...templ.Component) templ.Component {
 	return templ.ComponentFunc(func(ctx context.Context, w io.Writer) error {
-		if err := a.Render(ctx, w); err != nil {
-			return err
+		for _, c := range cs {
+			if err := c.Render(ctx, w); err != nil {
+				return err
+			}
 		}
-		return b.Render(ctx, w)
+		return nil
 	})
 }
 
@@ -398,6 +427,7 @@ func (g genCtx) items(depth int, inBlock bool) []Item {
 			case "join", "fnseq":
 				it.A = rapid.IntRange(lo, g.nComps-1).Draw(g.t, "compA")
 				it.B = rapid.IntRange(lo, g.nComps-1).Draw(g.t, "compB")
+				it.Arity = rapid.SampledFrom([]int{0, 0, 1, 1, 3, -1}).Draw(g.t, "arity")
 			case "once", "oncefixed":
 				it.A = rapid.IntRange(0, 2).Draw(g.t, "handle")
 			case "raw", "fn":
